@@ -1,6 +1,7 @@
 // scenarios for the coroutine mutex (C07, C08; also part of the C03 TSan workload)
 #pragma once
 #include <optional>
+#include <deque>
 #include <array>
 #include <vf/team.h>
 #include <cocls/mutex.h>
@@ -473,6 +474,106 @@ inline void ownership_object_history(const vf::opts &o, vf::report &R, uint64_t 
         if (!err.empty()) { R.violation("monitor:ownership|ownership_object_history", err, vf::jobj().kv("history", (unsigned long long)hn).kv("seed", (unsigned long long)o.seed).kv("ops", trace).str()); (void)mxs.release(); continue; }
         if (len >= 4) { R.nontrivial_cases++; R.sig(trace); }
         if (R.samples.size() < 2 && len > 8) R.sample(vf::jobj().kv("ops", trace).kv("result", "each mutex locked iff exactly one live ownership object holds it").str());
+    }
+}
+
+
+// ---------------------------------------------------------------------------------------------
+// Parties that are plain state machines (no coroutines) and use the CALLBACK flavour of the lock request
+// (co_awaiter<mutex>::await_suspend(resume_fn, ctx)). A party may "pipeline": while it still owns the mutex it files its request for
+// the next turn and then releases the current ownership with ownership::release(); if its own request heads the queue, the grant
+// callback runs re-entrantly INSIDE release() and stores the new ownership into the very object that is being released. Parties may
+// also leave straight from the grant callback. Oracle: a FIFO model of the same program (at most one owner, every request granted
+// exactly once, grants in arrival order, probes with try_lock succeed exactly when the model says the mutex is free).
+struct mcp_world;
+struct mcp_party {
+    mcp_world *W = nullptr; int id = 0;
+    int turns_left = 0; bool leave_in_callback = false;
+    cocls::mutex::ownership own;
+    std::optional<cocls::co_awaiter<cocls::mutex>> req;
+    int requests = 0, grants = 0; bool inside = false, pending = false;
+    static cocls::suspend_point<void> granted_cb(cocls::awaiter *, void *ctx) noexcept { static_cast<mcp_party *>(ctx)->granted(); return {}; }
+    void request();
+    void granted();
+    void leave();
+};
+struct mcp_world {
+    cocls::mutex mx;
+    mcp_party P[3];
+    int owners = 0; std::string err;
+    std::vector<int> grant_order;           // observed
+    // model
+    int m_owner = -1; std::deque<int> m_fifo; std::vector<int> m_grants; int m_turns[3] = {}; bool m_lic[3] = {};
+    void m_request(int p) { if (m_owner < 0) m_grant(p); else m_fifo.push_back(p); }
+    void m_grant(int p) { m_owner = p; m_grants.push_back(p); if (m_lic[p]) m_leave(p); }
+    void m_leave(int p) {
+        if (m_turns[p] > 0) { m_turns[p]--; m_request(p); }
+        m_owner = -1;
+        if (!m_fifo.empty()) { int q = m_fifo.front(); m_fifo.pop_front(); m_grant(q); }
+    }
+};
+inline void mcp_party::request() {
+    requests++; pending = true;
+    req.emplace(W->mx.lock());
+    if (req->await_ready() || !req->await_suspend(&granted_cb, this)) granted();
+}
+inline void mcp_party::granted() {
+    grants++; pending = false;
+    if (grants > requests && W->err.empty()) W->err = "a lock request was granted more than once";
+    own = req->await_resume();
+    inside = true;
+    W->grant_order.push_back(id);
+    if (++W->owners > 1 && W->err.empty()) W->err = "two parties own the mutex at the same time";
+    if (leave_in_callback) leave();
+}
+inline void mcp_party::leave() {
+    if (turns_left > 0 && !pending) { turns_left--; request(); } // file the request for the next turn first
+    inside = false; W->owners--;
+    own.release();
+}
+inline void mutex_callback_parties(const vf::opts &o, vf::report &R, uint64_t cases) {
+    vf::rng master(vf::mix(o.seed, 0x07cb));
+    for (uint64_t cn = 0; cn < cases && R.nviol() < 5; cn++) {
+        vf::rng r(master.next());
+        vf::set_crash_ctx(R.prop.c_str(), "mutex_callback_parties", o.seed, cn);
+        auto Wp = std::make_unique<mcp_world>(); mcp_world &W = *Wp;
+        int np = 1 + (int)r.below(3);
+        std::string desc = "parties:";
+        for (int i = 0; i < np; i++) {
+            mcp_party &p = W.P[i]; p.W = &W; p.id = i;
+            p.turns_left = W.m_turns[i] = r.chance(1, 8) ? 20 + (int)r.below(40) : (int)r.below(4);
+            p.leave_in_callback = W.m_lic[i] = r.chance(1, 4);
+            desc += " P" + std::to_string(i) + "(turns=" + std::to_string(p.turns_left) + (p.leave_in_callback ? ",leaves from the grant callback" : "") + ")";
+        }
+        desc += " |";
+        std::optional<cocls::mutex::ownership> hold; // ordinary code may hold the mutex itself (model owner 9)
+        auto compare = [&](const char *after) {
+            if (!W.err.empty()) return;
+            if (W.grant_order != W.m_grants) { W.err = std::string("after ") + after + ": grants happened in a different order / number than first-come-first-served (observed " + std::to_string(W.grant_order.size()) + ", model " + std::to_string(W.m_grants.size()) + ")"; return; }
+            for (int i = 0; i < np; i++) if (W.P[i].inside != (W.m_owner == i)) { W.err = std::string("after ") + after + ": party " + std::to_string(i) + (W.P[i].inside ? " is inside although the model says it is not the owner" : " is not inside although it heads the queue of a released mutex"); return; }
+            for (int i = 0; i < np; i++) if (W.P[i].inside && !W.P[i].own) { W.err = std::string("after ") + after + ": party " + std::to_string(i) + " was granted the mutex but its ownership object is empty"; return; }
+        };
+        int len = 3 + (int)r.below(16);
+        for (int step = 0; step < len && W.err.empty(); step++) {
+            uint32_t x = r.below(100); int p = (int)r.below((uint32_t)np);
+            mcp_party &Pp = W.P[p];
+            if (x < 40) { if (Pp.pending || (Pp.inside && r.chance(1, 2))) continue; desc += " request(" + std::to_string(p) + ")"; W.m_request(p); Pp.request(); compare("request"); }
+            else if (x < 75) { if (!Pp.inside) continue; desc += " leave(" + std::to_string(p) + ")"; if (Pp.pending) { /* request already filed: plain release */ int t = W.m_turns[p]; W.m_turns[p] = 0; W.m_leave(p); W.m_turns[p] = t; } else W.m_leave(p); Pp.leave(); compare("leave"); }
+            else if (x < 85 && !hold && W.m_owner < 0) { desc += " hold"; hold.emplace(W.mx.try_lock()); if (!*hold) W.err = "try_lock failed on a free mutex"; else W.m_owner = 9; }
+            else if (x < 92 && hold) { desc += " unhold"; W.m_owner = -1; if (!W.m_fifo.empty()) { int q = W.m_fifo.front(); W.m_fifo.pop_front(); W.m_grant(q); } hold->release(); hold.reset(); compare("release by ordinary code"); }
+            else { desc += " probe"; auto pr = W.mx.try_lock(); bool free_ = W.m_owner < 0; if ((bool)pr != free_) W.err = free_ ? "try_lock failed although every ownership has been released" : "try_lock succeeded while a party holds the mutex"; }
+        }
+        // drain: ordinary code lets go, then every inside party leaves until nobody is queued
+        if (W.err.empty() && hold) { W.m_owner = -1; if (!W.m_fifo.empty()) { int q = W.m_fifo.front(); W.m_fifo.pop_front(); W.m_grant(q); } hold->release(); hold.reset(); compare("final release by ordinary code"); }
+        for (int guard = 0; guard < 400 && W.err.empty() && W.m_owner >= 0; guard++) { int p = W.m_owner; if (W.P[p].pending) { int t = W.m_turns[p]; W.m_turns[p] = 0; W.m_leave(p); W.m_turns[p] = t; } else W.m_leave(p); W.P[p].leave(); compare("drain"); }
+        if (W.err.empty()) { auto pr = W.mx.try_lock(); if (!pr) W.err = "mutex not free after everybody left"; }
+        for (int i = 0; i < np && W.err.empty(); i++) if (W.P[i].grants != W.P[i].requests) W.err = "party " + std::to_string(i) + ": " + std::to_string(W.P[i].requests) + " requests, " + std::to_string(W.P[i].grants) + " grants";
+        R.cases++;
+        if (!W.err.empty()) { R.violation("monitor:callback_party|mutex_callback_parties", W.err, vf::jobj().kv("case", (unsigned long long)cn).kv("seed", (unsigned long long)o.seed).kv("program", desc).str()); (void)Wp.release(); continue; }
+        bool nontrivial = W.grant_order.size() >= 3;
+        if (nontrivial) R.nontrivial_cases++;
+        R.sig(desc, nontrivial);
+        R.cls("callback_party_grants", (uint64_t)W.grant_order.size());
     }
 }
 
